@@ -170,7 +170,7 @@ def r3(case, rec):
     require(not other['aliased'], '%s (%s) returned an alias of its %s-layout input(s) %s' % (a['op'], describe(a), layout, other['aliased']), op=a['op'])
 
 
-HASH_OPS = ['demes', 'data_dict', 'spectrum-methods', 'model', 'godambe', 'lowpass', 'numerics-caches']
+HASH_OPS = ['demes', 'data_dict', 'spectrum-methods', 'model', 'godambe', 'lowpass', 'lowpass-model', 'numerics-caches']
 
 
 @st.composite
